@@ -44,6 +44,8 @@ type cnTxSpec struct {
 	Deps     string `json:"deps,omitempty"`     // regruntime: deployments in descriptor order, "ver@validFrom;ver@validFrom" (default "0@0")
 	Gov      string `json:"gov,omitempty"`      // regruntime: entity | runtime
 	Shape    string `json:"shape,omitempty"`    // regruntime: "g<workers>b<backups>m<max nodes per entity, 0 = unset>p<min pool: workers+this>v<validator-set constraint 0/1>s<allowed stragglers>"
+	Slash    string `json:"slash,omitempty"`    // regruntime: "<amount>:<runtime share % for equivocation>:<runtime share % for incorrect results>" (per-runtime slashing)
+	VAct     string `json:"vact,omitempty"`     // vcreate: "<admins>/<threshold>;<suspenders>/<threshold>"; vauth: action descriptor (cons_vault.go parseAction)
 	Entity   string `json:"entity,omitempty"`   // regnode: register the node under this entity instead of its own
 	Sched    string `json:"sched,omitempty"`    // rhcommit: the scheduler whose proposal the commitment is for
 	Vote     string `json:"vote,omitempty"`     // rhcommit: A | B (result labels) | F (failure indicating)
@@ -130,7 +132,7 @@ func (n *cnNet) buildTx(spec *cnTxSpec, rng *rand.Rand) ([]byte, error) {
 		return nil, fmt.Errorf("unknown signer %s", spec.Signer)
 	}
 	var to staking.Address
-	if spec.To != "" && spec.Kind != "unfreeze" && spec.Kind != "regruntime" && spec.Kind != "rhcommit" {
+	if spec.To != "" && spec.Kind != "unfreeze" && spec.Kind != "regruntime" && spec.Kind != "rhcommit" && spec.Kind != "vauth" && spec.Kind != "vcancel" {
 		switch spec.To {
 		case "POOL":
 			to = staking.CommonPoolAddress
@@ -141,6 +143,10 @@ func (n *cnNet) buildTx(spec *cnTxSpec, rng *rand.Rand) ([]byte, error) {
 		case "RA0", "RA1":
 			to = staking.NewRuntimeAddress(runtimeID("R" + spec.To[2:]))
 		default:
+			if va, ok := n.vaultAddr[spec.To]; ok {
+				to = va
+				break
+			}
 			a, ok := n.account(spec.To)
 			if !ok {
 				return nil, fmt.Errorf("unknown target %s", spec.To)
@@ -285,6 +291,18 @@ func (n *cnNet) buildTx(spec *cnTxSpec, rng *rand.Rand) ([]byte, error) {
 				}
 			}
 		}
+		if spec.Slash != "" {
+			var amt, pe, pb int
+			if _, err := fmt.Sscanf(spec.Slash, "%d:%d:%d", &amt, &pe, &pb); err != nil {
+				return nil, fmt.Errorf("bad slash spec %q", spec.Slash)
+			}
+			rt.Staking.Slashing = map[staking.SlashReason]staking.Slash{
+				staking.SlashRuntimeIncorrectResults: {Amount: qq(int64(amt))},
+				staking.SlashRuntimeEquivocation:     {Amount: qq(int64(amt))},
+			}
+			rt.Staking.RewardSlashEquvocationRuntimePercent = uint8(pe)
+			rt.Staking.RewardSlashBadResultsRuntimePercent = uint8(pb)
+		}
 		rt.Genesis.StateRoot.Empty()
 		tx = registry.NewRegisterRuntimeTx(spec.Nonce, fee, rt)
 	case "rhcommit":
@@ -350,6 +368,11 @@ func (n *cnNet) buildTx(spec *cnTxSpec, rng *rand.Rand) ([]byte, error) {
 			return nil, err
 		}
 		tx = transaction.NewTransaction(spec.Nonce, fee, beacon.MethodVRFProve, &beacon.VRFProve{Epoch: beacon.EpochTime(spec.Amount), Pi: pi})
+	case "vcreate", "vauth", "vcancel":
+		var err error
+		if tx, err = n.buildVaultTx(spec, fee); err != nil {
+			return nil, err
+		}
 	case "deregentity":
 		tx = registry.NewDeregisterEntityTx(spec.Nonce, fee)
 	case "unfreeze":
